@@ -6,6 +6,8 @@
  3. the property itself: the real code vs the specification (extracted Coq spec; cross-checked against an
     independent Python oracle), same inputs -> concrete failing input
  4. ~200 cases per run through the real CLI (`mscript run`, typed print): make_*, bin_op, equ/neq, neg, not
+ 5. compound assignment (`+= -= *= /= %=`) on a variable, a list element, an object field (from outside and through
+    `self`), a map value: a fixed family of ~1000 programs per build against the Python oracle (bin_op_assign, both branches)
 """
 import itertools
 import os
@@ -182,6 +184,130 @@ def cli_cases(ctx, n):
     return out
 
 
+# ----------------------------------------------------------------------------- compound assignment, every target form
+# `x op= y` is the operator `op` applied to the value stored in x and to y (then stored in x): the promotion table and the
+# exact value are those of `x op y`, whatever x is: a variable, a list element, an object field (from outside the class and
+# through `self`), a map value.  Fixed family (the same for every seed): every compound operator x every kind pair whose
+# promoted kind is the kind of the target x sign / extreme / zero-divisor operand pairs x the five target forms, the right
+# operand written both as a literal and through a typed variable.  Expected value: nc.oracle (Python integers / doubles).
+COMPOUND_OPS = ["add", "sub", "mul", "div", "rem"]
+COMPOUND_KINDS = [(k1, k2) for k1 in "IBYF" for k2 in "IBYF" if nc.promote(k1, k2) == k1]
+COMPOUND_TARGETS = ["variable", "element", "field", "self-field", "map-value"]
+
+
+def _compound_pairs(k1, k2):
+    f = nc.f2bits
+    if k1 == "F":
+        lefts = [f(7.5), f(-7.5), f(1e308)]
+        rights = {"F": [f(2.0), f(-2.5), f(0.0)], "I": ["I2", "I-3", "I0"], "B": ["B2", "B-3", "B0"], "Y": ["Y2", "Y0"]}[k2]
+        return [(a, b) for a in lefts for b in rights if not (a == f(1e308) and b not in (rights[0], rights[-1]))]
+    lo, hi = nc.RANGE[k1]
+    if k1 == "Y":
+        vals = [(30, 7), (7, 3), (200, 100), (255, 1), (0, 1), (3, 7), (17, 0)]
+    else:
+        vals = [(30, 7), (-7, 3), (7, -3), (-8, -2), (hi, 2), (hi, 1), (lo, -1), (lo, 1), (-17, 0)]
+    out = []
+    for x, y in vals:
+        if k2 == "Y" and y < 0:
+            y = -y
+        if (nc.mkval(k1, x), nc.mkval(k2, y)) not in out:
+            out.append((nc.mkval(k1, x), nc.mkval(k2, y)))
+    return out
+
+
+def _compound_snippet(target, uid, k1, la, sym, rhs, k2=None):
+    """-> (class declarations, statements): applies `<target> sym= rhs` to a target holding la and prints the slot through a
+    temporary (the typed print shows the kind of a plain value only), then - for containers - the untouched neighbour"""
+    t1 = DECL[k1]
+    if target == "variable":
+        return "", "v%s: %s = %s\nv%s %s= %s\nprint v%s\n" % (uid, t1, la, uid, sym, rhs, uid)
+    if target == "element":
+        return "", ("l%s: [%s...] = [%s, %s]\nl%s[1] %s= %s\nr%s = l%s[1]\nprint r%s\nq%s = l%s[0]\nprint q%s\n"
+                    % (uid, t1, la, la, uid, sym, rhs, uid, uid, uid, uid, uid, uid))
+    if target == "field":
+        return ("class Box%s {\n\tv: %s\n\tw: %s\n\tconstructor(self) {\n\t\tself.v = %s\n\t\tself.w = %s\n\t}\n}\n" % (uid, t1, t1, la, la),
+                "o%s = Box%s()\no%s.v %s= %s\nr%s = o%s.v\nprint r%s\nq%s = o%s.w\nprint q%s\n" % (uid, uid, uid, sym, rhs, uid, uid, uid, uid, uid, uid))
+    if target == "self-field":
+        # the right operand reaches the method as a parameter of its kind (or is written as a literal in the method)
+        par, arg, use = ("", "", rhs) if k2 is None else (", n: %s" % DECL[k2], rhs, "n")
+        return ("class Cell%s {\n\tv: %s\n\tw: %s\n\tconstructor(self) {\n\t\tself.v = %s\n\t\tself.w = %s\n\t}\n\tfn apply(self%s) {\n\t\tself.v %s= %s\n\t}\n}\n"
+                % (uid, t1, t1, la, la, par, sym, use),
+                "o%s = Cell%s()\no%s.apply(%s)\nr%s = o%s.v\nprint r%s\nq%s = o%s.w\nprint q%s\n" % (uid, uid, uid, arg, uid, uid, uid, uid, uid, uid))
+    assert target == "map-value"
+    return "", ("m%s = map[str, %s]\nm%s[\"k\"] = %s\nm%s[\"j\"] = %s\nm%s[\"k\"] %s= %s\nr%s = m%s[\"k\"]\nprint r%s\nq%s = m%s[\"j\"]\nprint q%s\n"
+                % (uid, t1, uid, la, uid, la, uid, sym, rhs, uid, uid, uid, uid, uid, uid))
+
+
+def compound_cases():
+    """-> [(id, case, program, expected tokens or None when the program must stop with a failure)]"""
+    out = []
+    for op in COMPOUND_OPS:
+        sym = nc.SYMBOL[op]
+        for k1, k2 in COMPOUND_KINDS:
+            for a, b in _compound_pairs(k1, k2):
+                spec = nc.oracle(op, a, b)
+                la, lb = nc.literal(a), nc.literal(b)
+                forms = [(t, inline) for t in COMPOUND_TARGETS for inline in (False, True)]
+                # a defined result: all target forms in one program; an undefined one stops the program: one target each
+                groups = [forms] if spec != "UNDEF" else [[fm] for fm in forms]
+                for g in groups:
+                    classes, body, exp = "", "b: %s = %s\n" % (DECL[k2], lb), []
+                    for j, (t, inline) in enumerate(g):
+                        c, s = _compound_snippet(t, "%d" % j, k1, la, sym, lb if inline else "b", None if inline else k2)
+                        classes += c
+                        body += s
+                        exp += [spec] + ([] if t == "variable" else [a])
+                    cid = "%s:%s-%s:%s:%s:%s" % (op, nc.KIND_NAME[k1], nc.KIND_NAME[k2], a, b,
+                                                 "all-targets" if len(g) > 1 else "%s/%s" % (g[0][0], "literal" if g[0][1] else "variable"))
+                    out.append((cid, (op, a, b), classes + body, exp if spec != "UNDEF" else None))
+    return out
+
+
+def run_compound(ctx, binary, bname):
+    """the compound-assignment family through `mscript run`; returns (#programs compared, #spec failures)"""
+    base = ctx.mktemp()
+    cases = compound_cases()
+
+    def one(c):
+        d = programs.materialize({"files": {"m.ms": c[2]}}, base)
+        r = programs.run_bin(binary, ["run", "m.ms", "-q"], d, {"MSCRIPT_VERIF_TYPED_PRINT": "1"})
+        import shutil
+        shutil.rmtree(d, ignore_errors=True)
+        return r
+    n = bad = 0
+    for (cid, case, src, exp), (rc, out, err) in zip(cases, programs.pmap(one, cases)):
+        n += 1
+        how = {"case": cid, "build": bname, "program": src, "how": "MSCRIPT_VERIF_TYPED_PRINT=1 mscript run m.ms -q", "rc": rc, "stdout": out[-600:], "stderr": err[-400:]}
+        if "Did not compile successfully" in err:
+            # a rejected fixed case checks nothing: say so
+            ctx.report("generator:rejected:compound-assignment", "compound assignment case %s is rejected by the compiler: %s"
+                       % (cid, [l.strip() for l in (out + err).splitlines() if l.strip().startswith("=")][:1]), how, found_input=False)
+            continue
+        lines = [l for l in out.split("\n") if l.strip()]
+        got = [nc.parse_typed(l) or "?" + l[:60] for l in lines]
+        if exp is None:
+            if rc == 0 or got:
+                bad += 1
+                ctx.report("cli:compound:" + failure_class(case, "UNDEF", got[0] if got else "I0", bname),
+                           "%s `mscript run`: `x %s= y` with x = %s, y = %s (%s) must stop with a failure (undefined / not representable); it printed %s, exit %d"
+                           % (bname, nc.SYMBOL[case[0]], case[1], case[2], cid, got[:3], rc), dict(how, spec="UNDEF"))
+            continue
+        if rc != 0 or got != exp:
+            bad += 1
+            k = next((i for i, (g, e) in enumerate(zip(got, exp)) if g != e), min(len(got), len(exp)))
+            g = got[k] if k < len(got) else ("PANIC" if rc == 101 else "ERR")
+            neighbour = k < len(exp) and exp[k] == case[1] and exp[k] != nc.oracle(*case)
+            if g.startswith("?"):
+                cls = "cli:compound:unparsable-output"
+            else:
+                cls = "cli:compound:neighbour-slot-changed" if neighbour and g not in ("ERR", "PANIC") else "cli:compound:" + failure_class(case, exp[k] if k < len(exp) else exp[-1], g, bname)
+            ctx.report(cls, "%s `mscript run`: compound assignment `x %s= y` with x = %s, y = %s (%s): printed line %d is %s, the specification says %s (all lines: %s, exit %d)"
+                       % (bname, nc.SYMBOL[case[0]], case[1], case[2], cid, k + 1, g, exp[k] if k < len(exp) else "nothing more", got, rc), dict(how, spec=exp))
+    ctx.cov["compound_assignment_cases"] = {"programs": n, "operators": [nc.SYMBOL[o] + "=" for o in COMPOUND_OPS], "kind_pairs": ["%s-%s" % (nc.KIND_NAME[a], nc.KIND_NAME[b]) for a, b in COMPOUND_KINDS],
+                                            "targets": COMPOUND_TARGETS, "right_operand": ["typed variable", "literal"]}
+    return n, bad
+
+
 # ----------------------------------------------------------------------------- the check
 def run(ctx):
     ok = core.coq_props(ctx, "Props/C05.v")
@@ -249,6 +375,13 @@ def run(ctx):
                 dis += 1
                 ctx.report("correspondence:cli:%s:%s" % (c[0], bname), "impl-model and `mscript run` (%s) disagree on `%s`: observed=%s model=%s" % (bname, " ".join(c), got, m[bname]),
                            {"case": c, "program": cli_program(c, is_inline(ci)), "observed": got, "model": m}, found_input=False)
+    # compound assignment on every target form (fixed family)
+    n_compound = 0
+    for bname, bpath in (("debug", binary), ("release", core.build_repo(release=True))):
+        n, bad = run_compound(ctx, bpath, bname)
+        n_compound += n
+        spec_fail += bad
+    cli_cmp += n_compound
     ctx.cov["evaluations"] = 2 * len(cases) + cli_cmp
     ctx.cov["distinct_nontrivial"] = len(nontrivial)
     ctx.cov["exhaustive"] = exhaustive
